@@ -220,6 +220,33 @@ def run(ctx):
     c12.scalar_primitives(ctx, "C11.R6", core)
     c12.structural_equality(ctx, "C11.R6", core)
     S.TEMPLATES, S.INLINE = S_T, S_I
+    # ---- R11 what an operand is taken as, and no answer from heap identity
+    ctx.rule("C11.R11", "an operand counts as a number / boolean / string only if it is one: Value::as_number, as_bool and as_string answer Ok for their own kind alone (null read as false makes `[true, null] && true` a list instead of an error); and no comparison is answered from heap identity (a same-cell shortcut in equals makes `x .== x` true where an equal copy is not - NaN)", floor=4)
+    WANT = {"as_number": {"Number"}, "as_bool": {"Bool"}, "as_string": {"String"}, "as_list": {"List"}, "as_record": {"Record"}}
+    for g_, want_ in sorted(WANT.items()):
+        hg = core.hir.get("blots_core::values::Value::" + g_)
+        if hg is None or hg.get("body") is None:
+            ctx.inst("C11.R11", "Value::%s" % g_, None, "guard not found", None)
+            continue
+        ok_vars, unk_ = set(), False
+        for m_ in H.matches_on(hg["body"], "values::Value"):
+            for a_ in m_["arms"]:
+                b_ = S.norm(a_["body"], S.Env())
+                is_err = S.contains(b_, "Err") or S.contains_head(b_, "macro") and not S.contains(b_, "Ok")
+                gives_ok = (isinstance(b_, tuple) and b_ and b_[0] == "ctor" and b_[1] == "Ok") or S.contains_call(b_, "as_" + g_.split("_", 1)[1]) or (not is_err)
+                vs_ = {H.last(v) for v in H.pat_variants(a_["pat"])}
+                if not vs_ and gives_ok and not is_err:
+                    unk_ = True   # a catch-all that answers Ok
+                if gives_ok and not is_err:
+                    ok_vars |= vs_
+        extra = sorted(ok_vars - want_)
+        ctx.inst("C11.R11", "Value::%s" % g_, False if (extra or unk_) else (True if ok_vars else None), "answers Ok for %s%s" % (sorted(ok_vars) or "?", "" if not (extra or unk_) else ": also for %s" % (extra or "every other kind")), H.loc(hg["body"]))
+    from rules import c02 as c02_
+    from lib import mir as M_
+    crs_ = [core, ctx.cli, ctx.wasm]
+    cg_ = M_.CallGraph(crs_)
+    local_ = sorted(n_ for n_ in cg_.reachable_from(c02_.EVAL_ROOTS) if n_ in cg_.fns)
+    c02_.run_identity(ctx, cg_, local_, crs_, rid="C11.R12", doc="equality and ordering of operands are answered from the values, never from heap identity: no evaluator-reachable code compares Values or heap pointers by their derived PartialEq/PartialOrd, except equality against the constant null")
     ctx.rule("C11.R7", "prefix minus is the IEEE negation of the operand (never `0 - x`), not / ! negate the operand's boolean", floor=3)
     unary_rule(ctx, "C11.R7", core)
     # the ordering the comparison operators follow on lists (and fail with): element by element through compare itself
